@@ -15,6 +15,7 @@ specification only; the `codec` engine checks the real writers and readers again
 Core Lean only.
 -/
 import LA.Model.Codec
+import LA.Model.Util
 namespace LA.Codec
 open LA.Gen.TarLayout LA.Gen.CodecConsts
 
@@ -305,5 +306,142 @@ def Exp.mismatch (x : Exp) (r : RB) (nsec : Nat) : Option String :=
     chkField "sym" x.sym r.sym, chkField "hard" x.hard r.hard,
     chkField "rdevmajor" (x.rdev.map (·.1)) r.rdevmajor, chkField "rdevminor" (x.rdev.map (·.2)) r.rdevminor,
     chkField "dev" x.dev r.dev, chkField "nlink" x.nlink r.nlink ].findSome? id
+
+/-! ### Metadata beyond the classic stat fields: further times, sparse map, ACLs, extended attributes
+
+Kept apart from `Entry` (the byte-exact models do not look at any of it: ustar, cpio odc and cpio
+newc carry none of these). -/
+
+structure Extras where
+  mtimeSet : Bool := true
+  atime : Option (Int × Nat) := none
+  ctime : Option (Int × Nat) := none
+  btime : Option (Int × Nat) := none
+  sparse : List (Nat × Nat) := []       -- data regions (offset, length)
+  acl : List String := []               -- one canonical item per ACL entry, sorted
+  xattr : List String := []             -- "name:value" (hex), sorted
+  deriving Repr, DecidableEq, Inhabited
+
+/-- How a format carries an optional time stamp. `optional p`: presence and value (to `p` ns) are
+both stored; `valueOnly p`: a set value is stored, an unset one reads back as whatever the format's
+mandatory field holds. -/
+inductive TimeMode
+  | no | optional (prec : Nat) | valueOnly (prec : Nat)
+  deriving DecidableEq, Repr
+
+def atimeMode : WFmt → TimeMode
+  | .pax => .optional 1
+  | .sevenzip => .optional 100
+  | .xar => .optional 1000000000
+  | .zip | .iso9660 => .valueOnly 1000000000
+  | _ => .no
+
+/-- Birth time: pax (`LIBARCHIVE.creationtime`, written only for a birth time earlier than the
+modification time: a later one is taken for bogus) and the ISO 9660 Rock Ridge `TF` entry, which has
+a creation stamp only when it is not later than the modification time. -/
+def btimeMode (f : WFmt) (mtime : Int) (bt : Option (Int × Nat)) : TimeMode :=
+  match f with
+  | .pax => match bt with
+    | some (s, _) => if s < mtime then .optional 1 else .no
+    | none => .optional 1
+  | .iso9660 => match bt with
+    | some (s, _) => if s ≤ mtime then .valueOnly 1000000000 else .no
+    | none => .no
+  | _ => .no
+
+/-- An entry without a modification time: formats with an optional mtime return it unset, formats
+with a mandatory field store 0, zip stores the DOS epoch (not compared). -/
+def unsetMtimeReads : WFmt → Option Int
+  | .sevenzip | .xar => some (-1)
+  | .zip | .iso9660 | .warc => none
+  | _ => some 0
+
+def carriesSparse : WFmt → Bool
+  | .pax | .paxr => true | _ => false
+def carriesAcl : WFmt → Bool
+  | .pax | .paxr => true | _ => false
+def carriesXattr : WFmt → Bool
+  | .pax | .paxr | .xar => true | _ => false
+
+/-- The optional time stamps a format carries lie inside the range of its time fields. -/
+def Extras.inRange (f : WFmt) (x : Extras) : Bool :=
+  let ok (t : Option (Int × Nat)) : Bool := match t with
+    | none => true
+    | some (s, _) => inR s (mtimeRange f).1 (mtimeRange f).2
+  atimeMode f == .no || (ok x.atime && ok x.ctime && ok x.btime)
+
+def truncTime (p : Nat) (t : Int × Nat) : Int × Nat := (t.1, t.2 / p * p)
+
+def showTime : Option (Int × Nat) → String
+  | none => "-" | some (s, n) => s!"{s}.{n}"
+
+def chkTime (nm : String) (m : TimeMode) (w r : Option (Int × Nat)) : Option String :=
+  match m with
+  | .no => none
+  | .optional p =>
+    if w.map (truncTime p) = r then none else some s!"{nm} wrote={showTime w} read={showTime r}"
+  | .valueOnly p =>
+    match w with
+    | none => none
+    | some v => if some (truncTime p v) = r then none else some s!"{nm} wrote={showTime w} read={showTime r}"
+
+/-- Sparse maps are compared as sets of data bytes: empty regions dropped, touching regions merged,
+a single region covering the whole file is no sparse file at all. -/
+def normSparse (l : List (Nat × Nat)) (size : Nat) : List (Nat × Nat) :=
+  let m := (l.filter (fun r => r.2 > 0)).foldl (fun (acc : List (Nat × Nat)) r =>
+    match acc with
+    | (o, n) :: rest => if o + n = r.1 then (o, n + r.2) :: rest else r :: acc
+    | [] => [r]) []
+  let m := m.reverse
+  if m = [(0, size)] then [] else m
+
+def dedup (l : List String) : List String :=
+  l.foldl (fun acc x => if acc.contains x then acc else acc ++ [x]) []
+
+def showList (l : List String) : String := if l.isEmpty then "-" else String.intercalate "," l
+
+/-- The textual ACL form (pax `SCHILY.acl.*`) separates fields and entries with `:` `,` white space
+and `#`: a user / group name containing one of them has no representation. -/
+def aclNameHasSep (items : List String) : Bool :=
+  items.any fun it =>
+    match (it.splitOn ":").getLast? with
+    | some h => match LA.parseHex h with
+      | some bs => bs.any fun b => b = 32 ∨ b = 44 ∨ b = 58 ∨ b = 35 ∨ b = 9 ∨ b = 10
+      | none => false
+    | none => false
+
+/-- Agreement of the extra metadata of a read-back entry `r` with what was written (`w`) for the
+fields format `f` carries. -/
+def Extras.mismatch (f : WFmt) (mtime : Int) (size : Nat) (w r : Extras) : Option String :=
+  [ chkTime "atime" (atimeMode f) w.atime r.atime,
+    chkTime "ctime" (atimeMode f) w.ctime r.ctime,
+    chkTime "btime" (btimeMode f mtime w.btime) w.btime r.btime,
+    (if carriesSparse f ∧ normSparse w.sparse size ≠ normSparse r.sparse size then
+       some s!"sparse wrote={w.sparse.length} regions read={r.sparse.length} regions" else none),
+    (if carriesAcl f ∧ w.acl ≠ r.acl then
+       (if aclNameHasSep w.acl then some "acl name with a separator character altered"
+        else some s!"acl wrote={showList w.acl} read={showList r.acl}") else none),
+    (if carriesXattr f ∧ w.xattr ≠ r.xattr then
+       (if r.xattr.length = 2 * w.xattr.length ∧ w.xattr.all r.xattr.contains then some "xattr every attribute read back twice"
+        else some s!"xattr wrote={showList w.xattr} read={showList r.xattr}") else none) ].findSome? id
+
+/-! ### Reading the Joliet tree of an ISO 9660 image (reader option `!rockridge`, or an image written
+without Rock Ridge): names are UCS-2, at most 64 units per component (103 with `joliet=long`); no
+symbolic links, owners, permissions or device numbers. -/
+
+def utf16Units (p : List Nat) : Nat :=
+  (p.filter (fun c => c < 128 ∨ c ≥ 192)).length + (p.filter (fun c => c ≥ 240)).length
+
+/-- A component Joliet stores unchanged. -/
+def jolietSafe (maxUnits : Nat) (p : List Nat) : Bool :=
+  (cleanComponents p).all fun c =>
+    decide (utf16Units c ≤ maxUnits) && !c.any (fun b => b = 42 ∨ b = 47 ∨ b = 58 ∨ b = 59 ∨ b = 63 ∨ b = 92)
+    && c.all (fun b => b < 240)       -- UCS-2: no supplementary planes promised
+
+/-- Expectation for an entry read from the Joliet tree. -/
+def Exp.joliet (x : Exp) (ft : FType) : Exp :=
+  { x with ftype := if ft = .dir then x.ftype else if ft = .reg then x.ftype else none
+           sym := none, nlink := none, rdev := none, uid := none, gid := none, perm := none
+           size := if ft = .reg then x.size else none }
 
 end LA.Codec
